@@ -121,7 +121,7 @@ func (g *getGen) genDefaultCase() {
 	g.P("if descriptor.IsExtension() {")
 	g.P("panic(", fmtPkg.Ident("Errorf"), "(\"proto3 declared messages do not support extensions: ", g.message.Desc.FullName(), "\"))")
 	g.P("}")
-	g.P("panic(fmt.Errorf(\"message ", g.message.Desc.FullName(), " does not contain field %s\", descriptor.FullName()))")
+	g.P("panic(", fmtPkg.Ident("Errorf"), "(\"message ", g.message.Desc.FullName(), " does not contain field %s\", descriptor.FullName()))")
 }
 
 // genMap generates the protoreflect.Message.Get for map types
